@@ -491,7 +491,7 @@ func c18Exec(in c18In) vh.Out {
 		for _, k := range names {
 			hs = append(hs, "("+vh.CoqBytes(k)+", "+vh.CoqBytes(a.Headers()[k].(string))+")")
 		}
-		dec := c18Decoded(bytes.TrimSpace(encSig))
+		dec := c18Decoded(encSig) // exactly the bytes decodeSignature gets: no trimming (base64 skips only \r and \n)
 		coqA = "(mkA " + vh.CoqBool(a.SupportedFormat()) + " " + vh.CoqBytes(a.AuthorityID()) + " " + share(a.SignKeyID()) + " " + ts + " " +
 			vh.CoqList(hs) + " " + share(string(content)) + " " + share(dec) + " " + share(c18Core(dec)) + ")"
 	}
@@ -512,7 +512,7 @@ func c18Exec(in c18In) vh.Out {
 	sigChange := "undecodable"
 	if derr == nil {
 		_, es := a.Signature()
-		sigChange = c18SigChange(c18Decoded(bytes.TrimSpace(es)), sig0)
+		sigChange = c18SigChange(c18Decoded(es), sig0)
 	}
 	tags := []string{"key:" + in.KeyWhere, "mut:" + in.Mut.Kind, "clock:" + in.ClockMode, "type:" + in.Type}
 	if in.KeyAccount != c18Authority {
